@@ -334,8 +334,15 @@ def run(ctx: common.Ctx):
                     break
                 except Exception as e:   # noqa: BLE001
                     from .c01 import _short
-                    dis += 1
                     failed = True
+                    if type(e).__name__ == "NonUniqueTagError" and tagger is not None \
+                            and name in ("materialize_with_mpms", "preprocess"):
+                        # the user's own ImplInlined / ImplSubstitution on a node the materializer wants stored:
+                        # an explicit diagnostic of the tag system, not a changed value
+                        key = f"{name}:NonUniqueTagError on a pre-tagged graph"
+                        unsupported[key] = unsupported.get(key, 0) + 1
+                        break
+                    dis += 1
                     ctx.violation(f"transform:{name}:raises:{type(e).__name__}:{_short(str(e))}",
                                   f"program {i} (seed {ctx.seed}) pipeline {label}: {name} raised {type(e).__name__}: {e}",
                                   {"program_index": i, "seed": ctx.seed + 500, "pipeline": seq, "tagged": tagger is not None})
